@@ -482,7 +482,7 @@ func runPass(def *CheckDef, tier string, seed uint64, exe, mode string, limit in
 		go func(w int) {
 			defer wg.Done()
 			startAfter := -1
-			for gen := 0; gen < 25; gen++ {
+			for gen := 0; gen < 80; gen++ {
 				errFile := filepath.Join(dir, fmt.Sprintf("w%d.g%d.stderr", w, gen))
 				ef, _ := os.Create(errFile)
 				cmd := exec.Command(exe, "worker", def.ID, "--tier", tier, "--seed", strconv.FormatUint(seed, 10),
